@@ -403,7 +403,33 @@ func (tb *TermBuilder) load(addr ssa.Value) *Term {
 			return tb.Of(st[0].Val)
 		}
 		return tb.allocTerm(a)
-	case *ssa.FieldAddr, *ssa.IndexAddr:
+	case *ssa.FieldAddr:
+		// field of a fresh local struct that is assigned exactly once: name the stored value
+		if al, ok := a.X.(*ssa.Alloc); ok {
+			var only *ssa.Store
+			n := 0
+			if refs := al.Referrers(); refs != nil {
+				for _, r := range *refs {
+					fa, ok := r.(*ssa.FieldAddr)
+					if !ok || fa.Field != a.Field {
+						continue
+					}
+					if frefs := fa.Referrers(); frefs != nil {
+						for _, fr := range *frefs {
+							if st, ok := fr.(*ssa.Store); ok && st.Addr == ssa.Value(fa) {
+								n++
+								only = st
+							}
+						}
+					}
+				}
+			}
+			if n == 1 && len(tb.stores[al]) == 0 {
+				return tb.Of(only.Val)
+			}
+		}
+		return tb.Of(a)
+	case *ssa.IndexAddr:
 		return tb.Of(a)
 	case *ssa.Global:
 		return tb.Of(a)
